@@ -18,6 +18,7 @@ pub fn entries() -> Vec<(&'static str, crate::EntryFn)> {
         ("realgs2", entry_realgs2),
         ("realjava", entry_realjava),
         ("realtcp", entry_realtcp),
+        ("realhttp", entry_realhttp),
     ]
 }
 
@@ -328,4 +329,90 @@ fn unhex_dot(s: &str) -> Option<Vec<u8>> {
         return None;
     }
     (0 .. s.len() / 2).map(|i| u8::from_str_radix(&s[2 * i .. 2 * i + 2], 16).ok()).collect()
+}
+
+/// `realhttp <v4|v6> <read_ms> <other_ms> <mute|head|body|ok>`: the Eco query (the library's HTTP client) against a
+/// peer that accepts the connection and then writes nothing (`mute`), stalls inside the response head (`head`),
+/// stalls inside the body (`body`), or answers completely (`ok`), the connection kept open for ten read timeouts +
+/// 3 s.  Read timeout `read_ms`; write and connect timeouts `other_ms`.  The blocked read must end within the READ timeout.
+fn entry_realhttp(args: &[&str]) -> String {
+    if args.len() != 4 {
+        return "bad-case".into();
+    }
+    let (Some(bind), Ok(read_ms), Ok(other_ms)) = (loopback(args[0]), args[1].parse::<u64>(), args[2].parse::<u64>()) else {
+        return "bad-case".into();
+    };
+    let mode = args[3].to_string();
+    if !["mute", "head", "body", "ok", "refused"].contains(&mode.as_str()) {
+        return "bad-case".into();
+    }
+    let listener = TcpListener::bind(bind).expect("bind");
+    let addr = listener.local_addr().unwrap();
+    let done = Arc::new(AtomicBool::new(false));
+    let done2 = done.clone();
+    let refused = mode == "refused";
+    let h = std::thread::spawn(move || {
+        if refused {
+            drop(listener); // nothing listens on the port any more
+            return Some(());
+        }
+        let (mut s, _) = listener.accept().ok()?;
+        s.set_read_timeout(Some(Duration::from_millis(20))).ok()?;
+        // read the request head
+        let mut seen = Vec::new();
+        let mut buf = [0u8; 2048];
+        let t0 = Instant::now();
+        while !seen.windows(4).any(|w| w == b"\r\n\r\n") && t0.elapsed() < Duration::from_millis(2000) {
+            if let Ok(n) = s.read(&mut buf) {
+                if n == 0 {
+                    break;
+                }
+                seen.extend_from_slice(&buf[.. n]);
+            }
+        }
+        let body = br#"{"Info":{}}"#;
+        let part: Vec<u8> = match mode.as_str() {
+            "mute" => vec![],
+            "head" => b"HTTP/1.1 200 OK\r\nContent-Type: application/json\r\n".to_vec(),
+            "body" => format!("HTTP/1.1 200 OK\r\nContent-Type: application/json\r\nContent-Length: {}\r\n\r\n{{\"In", body.len()).into_bytes(),
+            _ => [format!("HTTP/1.1 200 OK\r\nContent-Type: application/json\r\nContent-Length: {}\r\nConnection: close\r\n\r\n", body.len()).into_bytes(), body.to_vec()].concat(),
+        };
+        let _ = s.write_all(&part);
+        let _ = s.flush();
+        if mode != "ok" {
+            let t0 = Instant::now();
+            while !done2.load(Ordering::Relaxed) && t0.elapsed() < Duration::from_millis(read_ms * 10 + 3000) {
+                std::thread::sleep(Duration::from_millis(5));
+            }
+        }
+        Some(())
+    });
+    let st = Some(
+        TimeoutSettings::new(
+            Some(Duration::from_millis(read_ms)),
+            Some(Duration::from_millis(other_ms)),
+            Some(Duration::from_millis(other_ms)),
+            0,
+        )
+        .unwrap(),
+    );
+    if refused {
+        let _ = h.join();
+        return {
+            let t0 = Instant::now();
+            let r = gamedig::games::eco::query_with_timeout(&addr.ip(), Some(addr.port()), &st);
+            let elapsed = t0.elapsed().as_millis();
+            format!("HTTP ;; - ;; T{elapsed} ;; {}", match r { Ok(_) => "OK".to_string(), Err(e) => format!("ERR {}", kind_name(&e.kind)) })
+        };
+    }
+    let t0 = Instant::now();
+    let r = gamedig::games::eco::query_with_timeout(&addr.ip(), Some(addr.port()), &st);
+    let elapsed = t0.elapsed().as_millis();
+    done.store(true, Ordering::Relaxed);
+    let _ = h.join();
+    let what = match r {
+        Ok(_) => "OK".to_string(),
+        Err(e) => format!("ERR {}", kind_name(&e.kind)),
+    };
+    format!("HTTP ;; - ;; T{elapsed} ;; {what}")
 }
